@@ -212,7 +212,7 @@ def comprehensions(cx, b, d):
                 if a == tuple(args):
                     site_bb = mu.bb
                     break
-        if callee == 'Vec::push' and len(args) == 1:
+        if callee in ('Vec::push', 'HashSet::insert', 'BTreeSet::insert', 'VecDeque::push_back') and len(args) == 1:
             e = canon(args[0])
             conds = []
             if site_bb is not None:
@@ -230,7 +230,7 @@ def comprehensions(cx, b, d):
                 rg = iv[0][1]
                 src = rg[2][1] if (rg[0] == 'range' and isinstance(rg[2], tuple) and rg[2][0] == 'len') else rg
             out.append({'src': src, 'elem': e, 'conds': conds, 'site': site_bb, 'form': 'loop'})
-        elif callee == 'Vec::extend' and len(args) == 1:
+        elif callee in ('Vec::extend', 'HashSet::extend') and len(args) == 1:
             rs = _chain(cx.facts, args[0])
             if rs is not None:
                 for r in rs:
